@@ -235,6 +235,34 @@ NEEDS = {
  'C20_k': ('orders with cost entry 0 skipped as "outside the grid"', 'order with price exactly 0'),
  'C20_b': ('OrderBook skips set_timegrid when it already holds this grid object (reads another asset\'s restricted grid / wacc)', 'portfolio set up twice on the same Timegrid object with a windowed / other-wacc asset handled just before the book'),
 }
+def from_notes(d):
+    """(change, needs) taken from the sub-agent's notes.md: the title line and the section on what the change needs in order to manifest."""
+    import re
+    try:
+        txt = open(os.path.join(d, 'notes.md')).read()
+    except Exception:
+        return '', ''
+    lines = txt.splitlines()
+    title = next((l for l in lines if l.startswith('#')), '').lstrip('# ').strip()
+    title = re.sub(r'^(C\d\d\s*[/-]?\s*)?(seeded\s+)?[Cc]hange\s*\(?[ab]\)?\s*[:-]\s*', '', title)
+    title = re.sub(r'^C\d\d\s*(seeded change|demo)?\s*\(?[ab]?\)?\s*[:/-]\s*', '', title).strip()
+    needs = ''
+    for i, l in enumerate(lines):
+        if l.startswith('#') and ('need' in l.lower() or 'manifest' in l.lower()):
+            body = []
+            for m in lines[i + 1:]:
+                if m.startswith('#'):
+                    break
+                body.append(m.strip())
+            needs = re.sub(r'\s+', ' ', ' '.join(body)).strip()
+            break
+    if not needs:
+        m_ = re.search(r'\*\*[^*]*(needs|manifest)[^*]*\*\*(.*?)(\n\s*\n|\Z)', txt, re.S | re.I)
+        if m_:
+            needs = re.sub(r'\s+', ' ', m_.group(2)).strip(' .:')
+    return title.replace('|', '/'), (needs[:420] + (' ...' if len(needs) > 420 else '')).replace('|', '/')
+
+
 rows = []
 for d in sorted(glob.glob(os.path.join(HERE, 'seeded', 'C??_?'))):
     sid = os.path.basename(d)
@@ -244,13 +272,13 @@ for d in sorted(glob.glob(os.path.join(HERE, 'seeded', 'C??_?'))):
             res = json.load(open(os.path.join(d, 'result.json')))
         except Exception as e:
             res = {'error': str(e)}
-    what, needs = NEEDS.get(sid, ('', ''))
+    what, needs = NEEDS.get(sid) or from_notes(d)
     caught = (res.get('caught_by') or '').split()
     meta = {'id': sid, 'breaks_property': sid[:3], 'change': what, 'needs_to_manifest': needs,
             'produced_by': 'fresh sub-agent given only the text of the property and a scratch worktree of /repo',
             'confirmed_by': 'tools/seeded_matrix.sh in a scratch worktree of /repo HEAD %s: demo.py on the clean tree exit %s, with patch.diff applied exit %s; pinned suite with the patch: %s'
                             % (res.get('repo_head'), res.get('demo_clean_exit'), res.get('demo_patched_exit'), (res.get('suite_with_patch') or '').strip()),
-            'checks_run': 'all 20 quick checks with EAO_REPO pointing at the patched worktree',
+            'checks_run': 'quick checks %s with EAO_REPO pointing at the patched worktree' % ' '.join(sorted((res.get('checks') or {}).keys())),
             'caught_by': caught, 'caught_by_own_property_check': sid[:3] in caught}
     json.dump(meta, open(os.path.join(d, 'meta.json'), 'w'), indent=1)
     rows.append((sid, what, needs, caught, res))
